@@ -47,7 +47,9 @@ def read_weather_inputs(
 
     # the model addresses the records by day number: exactly one record per
     # simulation day, in chronological order
-    weather_df = weather_df.sort_values("Date", kind="stable")
+    # (ordered through the column's values: an index that is itself named "Date"
+    # must not matter)
+    weather_df = weather_df.iloc[weather_df.Date.argsort(kind="stable").values]
     days = pd.DatetimeIndex(weather_df.Date)
     if len(days) != len(clock_sctruct.time_span) or not (days == clock_sctruct.time_span).all():
         raise ValueError(
